@@ -219,10 +219,10 @@ KINDS = {
     "precision": [("p", "o.precision(Some(kani::any()));")],
     "fill": [("*", "o.fill('*');"), ("0", "o.fill('0');"), ("e-acute", "o.fill('\\u{e9}');"), ("max", "o.fill('\\u{10FFFF}');")],
 }
-KINDS["mix"] = KINDS["default"] + KINDS["hex"] + KINDS["width"]
+KINDS["mix"] = KINDS["default"] + KINDS["hex"] + KINDS["width"] + KINDS["precision"]
 KINDS["allkinds"] = [v for k in ("default", "hex", "sign", "zero", "align", "width", "precision", "fill") for v in KINDS[k]]
 REAL_KINDS = ["default", "hex", "sign", "zero", "align", "width", "precision", "fill"]
-KIND_TEXT = {"mix": "all other options default | hex-debug x? | X? | every width w: u16",
+KIND_TEXT = {"mix": "all other options default | hex-debug x? | X? | every width w: u16 | every precision p: u16",
              "allkinds": "each option kind in turn: default, x?, X?, +, -, 0, <, >, ^, every width, every precision, 4 fills",
              "default": "all other options default", "hex": "hex-debug x? | X?", "sign": "sign + | -", "zero": "zero-pad flag",
              "align": "alignment < | > | ^", "width": "every width w: u16", "precision": "every precision p: u16",
@@ -376,7 +376,7 @@ def unraw(n):
 
 
 def rust_ty(ty, idx):
-    return {"O": "OptProbe<%d>" % (idx & 3), "NL": "NlProbe", "B": "ByteProbe", "T": "T", "RT": "&'a T"}.get(ty, ty)
+    return {"O": "OptProbe<%d>" % (idx & 3), "NL": "NlProbe", "B": "ByteProbe", "V": "ByteProbe", "T": "T", "RT": "&'a T"}.get(ty, ty)
 
 
 def field_decl(f, with_attrs, idx):
@@ -487,6 +487,9 @@ def value_expr(f, mod, idx, inner):
         return "&rt0"
     if f.ty == "NL":
         return "NlProbe(nl)"
+    if f.ty == "V":
+        # equal field types, pairwise distinct symbolic values: a field taken from the wrong position changes the text
+        return "ByteProbe(byte.wrapping_add(%d))" % idx
     if f.ty == "B":
         return "ByteProbe(byte)"
     if f.ty == "Tiny":
@@ -510,14 +513,14 @@ def uses(tys, key):
 
 
 def type_program(key, title, tys, configs, top=None, extra_items="", extra_harness="", extra_hs=(), stub=STUB3, control=False,
-                 contract=False):
+                 contract=False, unwind=None):
     """tys: all types of the program (nested ones first); top: names of the types under test (default: all).
     configs: [(harness suffix, alt, kind)]"""
     inner = {t.name: t for t in tys}
     tops = [t for t in tys if top is None or t.name in top]
     dm = "".join(t.decl("dm") for t in tys)
     sd = "".join(t.decl("sd") for t in tys)
-    nl_used, b_used = uses(tys, "NL"), uses(tys, "B")
+    nl_used, b_used = uses(tys, "NL"), uses(tys, "B") or uses(tys, "V")
     blocks = []
     labels = []
     for t in tops:
@@ -554,7 +557,7 @@ def type_program(key, title, tys, configs, top=None, extra_items="", extra_harne
                 call = "        match kani::any::<u8>() {\n" + "".join(
                     "            %s => { let nl: u8 = %d;\n    %s\n            }\n" % (str(k) if k < 3 else "_", k, call.replace("\n", "\n    "))
                     for k in range(4)) + "        }"
-            harn += "    #[kani::proof]\n    #[kani::unwind(%d)]\n    %s\n    fn %s() {\n%s%s\n    }\n" % (UNWIND, stub, name, pre, call)
+            harn += "    #[kani::proof]\n    #[kani::unwind(%d)]\n    %s\n    fn %s() {\n%s%s\n    }\n" % (unwind or UNWIND, stub, name, pre, call)
             cfg = "{:%s?} (alternate=%s, %s)" % ("#" if alt else "", "on" if alt else "off", KIND_TEXT[kind])
             hs.append(Harness(name, "forall field values of the probe types. post_same(dm::T, sd::T) under %s; T in {%s}" % (cfg, ", ".join(plabs)),
                               fn="generated <dm::T as Debug>::fmt (impl/src/fmt/debug.rs) + src/fmt.rs DebugTuple", cover_min=ncov))
@@ -679,6 +682,26 @@ def type_programs(tier):
     add("k_one_field", skip_subsets("tuple", 1, "T") + skip_subsets("named", 1, "N"))
     add("k_enum", [Ty("KE", [Sh("A", "tuple", [O(), O(attr="skip")]), Sh("B", "named", [O("a", "ignore"), O("b")]),
                              Sh("C", "tuple", [O(attr="skip")]), Sh("D", "named", [O("a", "skip")]), Sh("E", "tuple", [O()])], is_enum=True)])
+    # a skipped field BEFORE / BETWEEN shown ones in tuple VARIANTS (patterns bind by position): distinct probe types ...
+    add("k_enum_pos", [Ty("KP", [Sh("Lead", "tuple", [O(attr="skip"), O()]), Sh("Mid", "tuple", [O(), O(attr="ignore"), O()]),
+                                 Sh("Two", "tuple", [O(attr="skip"), O(attr="ignore"), O()]),
+                                 Sh("LeadN", "named", [O("a", "ignore"), O("b")]), Sh("MidN", "named", [O("a"), O("b", "skip"), O("c")])],
+                          is_enum=True)])
+    # ... and fields of EQUAL type holding pairwise distinct symbolic values (flat: a value read back from an enum payload is symbolic)
+    add("k_enum_pos_val", [Ty("KV", [Sh("Lead", "tuple", [Fd(None, "V", "skip"), Fd(None, "V")]),
+                                     Sh("Mid", "tuple", [Fd(None, "V"), Fd(None, "V", "ignore"), Fd(None, "V")]),
+                                     Sh("Tail", "tuple", [Fd(None, "V"), Fd(None, "V"), Fd(None, "V", "skip")])], is_enum=True),
+                           st("SV", "tuple", [Fd(None, "V", "ignore"), Fd(None, "V"), Fd(None, "V", "skip"), Fd(None, "V")])],
+        configs=[c for c in cfg if not c[1]])
+    # ---- unit struct / unit variant inside a tuple holder (std writes the bare name: width and precision are ignored)
+    add("n_unit_in_tuple", [st("Un", "unit"), Ty("EU", [Sh("U", "unit"), Sh("W", "unit")], is_enum=True),
+                            st("Hold", "tuple", [Fd(None, "Un"), Fd(None, "EU"), O()]),
+                            st("HoldN", "named", [Fd("u", "Un"), Fd("e", "EU")])], top=["Hold", "HoldN", "EU"])
+    # ---- raw-identifier field names that ALSO carry a field-level format (with and without a skipped sibling)
+    add("raw_field_fmt", [st("RM", "named", [O("r#match", ("fmt", '"<{:?}>"', ["r#match"])), O("r#in")]),
+                          st("RS", "named", [O("r#type", ("fmt", '"{:?}!"', ["r#type"])), O("b", "skip")]),
+                          Ty("RV", [Sh("V", "named", [O("r#in", ("fmt", '"[{:?}]"', ["r#in"])), O("r#loop", "ignore")]),
+                                    Sh("W", "named", [O("a"), O("r#fn", ("fmt", '"{:?}|{:?}"', ["a", "r#fn"]))])], is_enum=True)])
     # ---- field-level format: only that field's value is replaced
     add("f_tuple_fmt", [st("FT", "tuple", [O(attr=("fmt", '"<{:?}>"', ["_0"])), O()]),
                         st("FU", "tuple", [O(), O(attr=("fmt", '"{_1:?}!"', []))])])
@@ -689,6 +712,11 @@ def type_programs(tier):
     # literal-only format: `Arguments::as_str` must answer Some(..) here, so its model is not used
     add("f_literal", [st("FL", "tuple", [O(attr=("fmt", '"lit"', [])), O()]), st("FM", "named", [O("a", ("fmt", '"lit"', []))])],
         configs=[c for c in cfg if not c[1]], stub=STUB2)
+    # one write_str with an interior newline and no trailing newline, produced by a literal-only field format, in pretty mode.
+    # `Arguments::as_str` must answer Some(..) for the literal, so its model is not used: the spurious branch inside
+    # `fmt::write(Padded, "{value:#?}")` is explored up to the (small) unwind bound
+    add("f_literal_nl", [st("FP", "tuple", [O(attr=("fmt", '"h\\nt"', []))])],
+        configs=[("flat", False, "default"), ("pretty", True, "default")], stub=STUB2, unwind=5)
     return P
 
 
